@@ -97,7 +97,7 @@ def config(rng):
              "p": {"maxlen": 6, "waters": [0, 2, 4], "na_prob": 0.2, "variant_prob": 0.15, "damage_prob": 0.15}}
     # input encoding: plain PDB, multi-model PDB, mmCIF (single / multi-model with assorted model numbers)
     if "named" not in w:
-        enc = rng.choice(["pdb", "pdb", "pdb", "pdb-models", "cif", "cif-models", "cif-models"])
+        enc = rng.choice(["pdb", "pdb", "pdb", "pdb-models", "pdb-loose", "cif", "cif-models", "cif-models"])
         if enc != "pdb":
             w["enc"] = enc
             w["model_numbers"] = rng.choice([[1, 2, 3], [9, 10, 11], [2, 10, 11], [3, 2, 1], [1, 2, 3, 4, 5, 6, 7, 8, 9, 10, 11]])
@@ -131,6 +131,18 @@ def text_of(cfg):
             allm.append("ENDMDL")
         items = allm + ["END"]
         pdbfmt.renumber(items)
+    if enc == "pdb-loose":
+        # loosely formatted bookkeeping records that the record parsers reject (the reader logs them and goes on):
+        # a MODEL line with its number in the wrong columns, a TER with text in the serial field, a malformed CRYST1
+        lines = pdbfmt.to_text(items).split("\n")
+        k = next((i for i, ln in enumerate(lines) if ln.startswith(("ATOM", "HETATM"))), 0)
+        lines[k:k] = ["MODEL 1", "CRYST1 not a unit cell"]
+        ters = [i for i, ln in enumerate(lines) if ln == "TER"]
+        if ters:
+            lines[ters[-1]] = "TER   end of chain"
+        e = next((i for i, ln in enumerate(lines) if ln == "END"), len(lines))
+        lines[e:e] = ["ENDMDL"]
+        return "\n".join(lines)
     if enc.startswith("cif"):
         from ..gen import cifwriter
         sd = cfg["w"].get("seed", 0)
@@ -279,6 +291,19 @@ def run_history(spec, res):
             k += 1
             if c["fail"] is None and c.get("flavour") == "apbs" and c["id"] not in [p["id"] for p in pool]:
                 pool.insert(0, c)
+    if spec["seed"] % 3 == 1:
+        # a file with rejected bookkeeping records first, then inputs that depend on those record types
+        # (several models, blank chain ids separated by TER)
+        want = ["pdb-loose", "pdb-models"]
+        k = 0
+        while want and k < 600:
+            c = config(random.Random(spec["seed"] * 23 + k))
+            k += 1
+            if c["fail"] is None and c["w"] and c["w"].get("enc") == want[0] and c["id"] not in [p["id"] for p in pool]:
+                pool.insert(0 if want[0] == "pdb-models" else 0, c)
+                want.pop(0)
+        # order: loose first (pool[0] is A in the forced A-B-A pattern)
+        pool.sort(key=lambda c: 0 if (c["w"] or {}).get("enc") == "pdb-loose" else 1)
     fails = [c for c in (config(random.Random(spec["seed"] * 7 + k)) for k in range(40)) if c["fail"]][:2] or \
         [{"id": "fail-garbage", "fail": "garbage", "opts": ["--ff=AMBER"], "w": None}]
     ref = {}
